@@ -396,6 +396,34 @@ def gen_cases(tier, rng, w):
                            "rotk": f"{kt}_{ids[0]}", "dck": f"{kt}_{ids[1]}", "uuid": uu.hex(), "socu": val32(), "vu": 0, "beacon": 0,
                            "fuse_version": rng.choice([0, 1, 255])})
     streams["EdgeLock container-v2 credentials (AHAB certificate; oracle only)"] = cs
+    # ---- 6. object history: the SAME object exported twice, re-signed, changed through its public members and exported again
+    cs = []
+    for rep_i in range(3 if thorough else 1):
+        plan = [(rng.choice(rep_plain), kt, 0) for kt in KTYPES] + [(rng.choice(rep_ele), kt, 0) for kt in ("p256", "p384", "r2048")] \
+            + [(rng.choice([f for f in ele2 if f["latest"]] or ele2), kt, 1) for kt in ("p256", "r2048")]
+        for f, kt, v2 in plan:
+            n1 = 4 if f["ele"] else rng.choice([1, 2, 3, 4])
+            n2 = 4 if f["ele"] else rng.choice([n for n in (1, 2, 3, 4) if n != n1])
+            c = mk(f, kt, max(n1, n2), 0)
+            keys = c["keys"]
+            c.update({"op": "history", "keys": keys[:n1], "rotk": keys[0], "dck_priv": c["dck"]})
+            if f["ele"] and not v2:
+                c["flag_ca"] = 0
+            ch = dict(c, keys=keys[:n2], uuid=uuid16(), socu=val32(), vu=val32(), beacon=val32())
+            ch.pop("changed", None)
+            if f["ele"] and not v2:
+                ch["flag_ca"] = 1
+            if v2:
+                c.update({"v2": 1, "keys": keys[:1], "fuse_version": 1, "uuid": bytes([rng.randrange(1, 256)] + [rng.getrandbits(8) for _ in range(15)]).hex()})
+                ch = dict(c, socu=val32())
+            else:
+                u1 = bytes(rng.getrandbits(8) for _ in range(16)).hex()
+                c["requests"] = [{"uuid": u1, "challenge": bytes(rng.getrandbits(8) for _ in range(32)).hex(), "beacon": val32()},
+                                 {"uuid": u1, "challenge": bytes(rng.getrandbits(8) for _ in range(32)).hex(), "beacon": val32()}]
+            ch.pop("requests", None)
+            c["changed"] = ch
+            cs.append(c)
+    streams["object history: export twice / re-sign / change public members, against a fresh object (credentials and responses)"] = cs
     return streams
 
 
@@ -700,6 +728,64 @@ def oracle_dcv2(case, r, w):
     return out
 
 
+def oracle_history(case, r, w):
+    """A second export of the same object is an export: identical where the output is deterministic, otherwise identical
+    outside the signature and still verifying; after a change through public members it must equal a fresh object's export."""
+    out = []
+    h = r["history"]
+    f = w.facts(case)
+    pss = True if case.get("v2") else f["pss"]
+
+    def bad(kind, what, msg):
+        out.append((f"history:{kind}:{what}", f"{msg} [family {case['family']} rev {case['revision']} keys {case['keys']} dck {case['dck']}; "
+                    f"operations: {' ; '.join(h.get('ops', []))}]"))
+    if "err" in h:
+        bad("second-export-differs", "raises-" + str(h.get("exc")), "the operation sequence on one object fails")
+        return out
+    B = {k: bytes.fromhex(v) for k, v in h.items() if isinstance(v, str)}
+    signer = w.pool[case["rotk"]]
+    det_sig = signer["k"] == "rsa" and not pss
+
+    def split(b):
+        """-> (deterministic part, signed message, signature)"""
+        if case.get("v2"):
+            so = struct.unpack_from("<H", b, 4)[0]
+            return b[:so + 8], b[:so], b[so + 8:]
+        sl = sig_len(signer)
+        return b[:-sl], b[:-sl], b[-sl:]
+
+    def same_export(x, y):
+        dx, mx, sx = split(x)
+        dy, my, sy = split(y)
+        if det_sig:
+            return x == y
+        return dx == dy and verify_sig(signer, my, sy, pss)
+    if B["e1b"] != B["e1"]:
+        bad("second-export-differs", "credential-export-repeated", "export() called twice without re-signing gives different bytes")
+    if not same_export(B["e1"], B["e2"]):
+        bad("second-export-differs", "credential-after-resign", "sign() + export() a second time: deterministic part differs or the signature no longer verifies")
+    if not verify_sig(signer, split(B["fresh"])[1], split(B["fresh"])[2], pss):
+        bad("second-export-differs", "fresh-object", "the fresh comparison object does not verify")
+    elif not same_export(B["fresh"], B["changed"]):
+        k = next((i for i, (x, y) in enumerate(zip(B["fresh"], B["changed"])) if x != y), min(len(B["fresh"]), len(B["changed"])))
+        bad("stale-after-change", "credential", f"after changing public members and re-signing the export ({len(B['changed'])} bytes) differs from a "
+            f"fresh object's ({len(B['fresh'])} bytes) at offset {k} or does not verify")
+    if "r1" in B:
+        dck = w.pool[case["dck"]]
+        sl = sig_len(dck)
+        det2 = dck["k"] == "rsa" and not f["pss"]
+        ch1, ch2 = (bytes.fromhex(q["challenge"]) for q in case["requests"])
+        if B["r1b"][:-sl] != B["r1"][:-sl] or (det2 and B["r1b"] != B["r1"]) or not verify_sig(dck, B["r1b"][:-sl] + ch1, B["r1b"][-sl:], f["pss"]):
+            bad("second-export-differs", "response", "the second export() of one response object differs outside the signature or does not verify")
+        rc, rf = B["r_changed"], B["r_fresh"]
+        if rc[:-sl] != rf[:-sl] or (det2 and rc != rf) or not verify_sig(dck, rc[:-sl] + ch2, rc[-sl:], f["pss"]):
+            bad("stale-after-change", "response", "after assigning another challenge/beacon the response differs from a fresh object's or does not "
+                "verify for the new challenge")
+        if verify_sig(dck, rc[:-sl] + ch1, rc[-sl:], f["pss"]):
+            bad("stale-after-change", "response-signed-for-old-challenge", "the response exported after the change still verifies for the previous challenge")
+    return out
+
+
 def oracle_dar(case, r, w):
     out = []
     if not regular(case, w) or not isinstance(r.get("export"), str):
@@ -907,6 +993,8 @@ def run(tier):
                 hits += oracle_dc(c, r, w)
             if c["op"] == "dar":
                 hits += oracle_dar(c, r, w)
+            if c["op"] == "history":
+                hits += oracle_history(c, r, w)
         except Exception as ex:  # noqa  (HarnessError or a bug of the oracle itself: not a statement about SPSDK)
             oracle_failures.append(f"{type(ex).__name__}: {ex} on case {str({k: v for k, v in c.items() if k not in ('requests',)})[:200]}")
             hits = []
@@ -1052,7 +1140,7 @@ def run(tier):
                 v = list(r.values())[0]
                 if not (isinstance(v, dict) and "err" in v):
                     okc += 1
-                    distinct.add(str(v)[:300])
+                    distinct.add(v.get("e1", "")[:200] if c["op"] == "history" else str(v)[:300])
         samples = [{k: v for k, v in flat[i].items() if not k.startswith("_") and k != "requests"} for i in idx[:3]]
         for s in samples:
             for k in ("data", "dc", "dac"):
